@@ -403,7 +403,7 @@ Definition getcstate (v : uval) : cstate :=
        (getnatpairs (arg 6 v)) (getnatpairs (arg 7 v)).
 Definition vcresult (r : cresult) : uval := VL [vbool (r_returns r); vN (r_seconds r); vnat (r_left r); vbool (r_writer_closed r)].
 (* the walk of the connection's task set is not observable from outside: the reconnect chain as one running task *)
-Definition e_close (v : uval) : uval := vcresult (close true true true true [s_reconnecting (getcstate v)] (getcstate v)).
+Definition e_close (v : uval) : uval := vcresult (close true true true true true [s_reconnecting (getcstate v)] 0 (getcstate v)).
 (* observed: [returns; seconds; tasks left; writer closed] *)
 Definition e_P12 (v : uval) : uval :=
   vbool (P12 (mkCR (getbool (arg 0 v)) (getN (arg 1 v)) (getnat (arg 2 v)) (getbool (arg 3 v)))).
